@@ -146,6 +146,10 @@ def generate(rng, nfn=None, static_only=False, cxx=False):
             fn.attrs = ' __asm__("%s")' % rng.choice(["renamed_%d" % i, "_under_%d" % i, "fn%d$x" % i, "_fn%d" % i, "_fn%d_v2" % i, "fn%d_tail" % i])
         elif x < 0.33:
             fn.arrparam = True
+        elif x < 0.42 and not static_only and not cxx:
+            # a second calling convention in the same header (extern "win64" blocks interleaved with extern "C" ones)
+            fn.abi = "ms_abi"
+            fn.name += "w"        # keeps it out of the reach of the --override-abi patterns (overriding a real convention is the user's lie, not bindgen's)
         fn.static = static_only or (rng.random() < 0.0)
         if fn.params and not fn.cb and not fn.variadic and rng.random() < 0.3:
             fn.unnamed = set(j for j in range(len(fn.params)) if rng.random() < 0.5)
@@ -185,7 +189,8 @@ def fn_proto(fn, lib, decl_only=False):
         ps.append("%s cbp" % fn.cb[0])
     if fn.variadic:
         ps.append("...")
-    return "%s %s(%s)" % (fn.ret.c if fn.ret else "void", fn.name, ", ".join(ps) or "void")
+    return "%s%s %s(%s)" % ("__attribute__((ms_abi)) " if getattr(fn, "abi", None) == "ms_abi" else "", fn.ret.c if fn.ret else "void", fn.name,
+                            ", ".join(ps) or "void")
 
 
 def header(lib, static_bodies=False, cxx=False):
@@ -443,12 +448,20 @@ def emit_rs(lib, view, bindings_path, link_names, call_static=False):
     for r in lib.recs:
         if r.name in view.types:
             out.append("impl VfDesc for %s { fn d() -> String { format!(\"record/{}\", std::mem::size_of::<%s>()) } }" % (r.name, r.name))
-    for ar in range(0, 10):
-        gens = ", ".join("A%d: VfDesc" % k for k in range(ar))
-        args = ", ".join("A%d" % k for k in range(ar))
-        descs = ", ".join("A%d::d()" % k for k in range(ar))
-        out.append("fn vf_sig%d<R: VfDesc%s%s>(_f: unsafe extern \"C\" fn(%s) -> R) -> String { let v: Vec<String> = vec![%s]; format!(\"{} <- {}\", R::d(), v.join(\" \")) }" % (
-            ar, ", " if gens else "", gens, args, descs))
+    fabi = {}
+    for it in view.inv["items"]:
+        if it["kind"] == "extern_block":
+            for m in it["members"]:
+                if m["kind"] == "foreign_fn":
+                    fabi[m["name"]] = it["abi"]
+    abis = sorted(set(fabi.values()) | {"C"})
+    for ai, abi in enumerate(abis):
+        for ar in range(0, 10):
+            gens = ", ".join("A%d: VfDesc" % k for k in range(ar))
+            args = ", ".join("A%d" % k for k in range(ar))
+            descs = ", ".join("A%d::d()" % k for k in range(ar))
+            out.append("fn vf_sig%s%d<R: VfDesc%s%s>(_f: unsafe extern \"%s\" fn(%s) -> R) -> String { let v: Vec<String> = vec![%s]; format!(\"{} <- {}\", R::d(), v.join(\" \")) }" % (
+                "" if abi == "C" else "_x%d_" % ai, ar, ", " if gens else "", gens, abi, args, descs))
     tab = rec_keys(lib)
     ext = ['extern "C" { fn vf_dump_globals(); fn vf_sigs();']
     for r in lib.recs:
@@ -472,7 +485,9 @@ def emit_rs(lib, view, bindings_path, link_names, call_static=False):
             continue
         ar = len(fn.params) + (1 if fn.cb else 0)
         if not fn.variadic:
-            main.append('    println!("SIG %s {}", vf_sig%d(%s));' % (fn.name, ar, fn.name))
+            a_ = fabi.get(fn.name, "C")
+            main.append('    println!("SIG %s {}", vf_sig%s%d(%s));' % (fn.name, "" if a_ == "C" else "_x%d_" % abis.index(a_), ar, fn.name))
+        main.append('    println!("ABI %s %s");' % (fn.name, fabi.get(fn.name, "?")))
         args = []
         pre = []
         for j, p in enumerate(fn.params):
